@@ -149,7 +149,10 @@ def ringCase (a : List Int) (res : List Int) (line : String) : String :=
     let fnM : Int := if fn == 8 || fn == 9 then (if t == 0x20 || t == 0x21 || t == 0x30 then 1 else if 0x31 ≤ t && t ≤ 0x39 then 2 else 0) else fn
     -- eq: the sequence drawn into pre-filled destinations equals the one drawn into zeroed destinations by an iterator that is
     -- replaced by a copy of itself half-way (destination independence, reproducibility from the seed, copy semantics)
+    -- ZRing: `GeneralRingRandIter(F, seed, size)` with a non-zero sampling size returns elements of [0, size)
+    let sized : Bool := 0x31 ≤ t && t ≤ 0x39 && (fn == 2 || fn == 8) && size != 0
     let specOk := eq == 1 && decide (es.length = n.toNat) && es.all canon && (!nz || es.all (· != 0))
+                  && (!sized || es.all (fun e => decide (0 ≤ e ∧ e < size)))
     let olds := List.replicate n.toNat (junkOf t)
     let model : Option (Option (List Int)) :=
       match modSty t with
